@@ -385,8 +385,13 @@ class State:
         for c in self.constraints():
             if new.entails(c, 3):
                 r.add(c)
-        for k in set(self.condfacts) & set(new.condfacts):
-            r.condfacts[k] = [l for l in self.condfacts[k] if any(l.norm() == m.norm() for m in new.condfacts[k])]
+        for k in self.condfacts:
+            if k in new.condfacts:
+                r.condfacts[k] = [l for l in self.condfacts[k] if any(l.norm() == m.norm() for m in new.condfacts[k]) or new.entails(l, 3)]
+            else:
+                keep = [l for l in self.condfacts[k] if new.entails(l, 3)]
+                if keep:
+                    r.condfacts[k] = keep
         r.cong = self.cong_join(new)
         return r
 
@@ -866,7 +871,7 @@ class Analysis:
                 st.add(f)
             # NULL tests release conditional facts
             for a_, b_ in ((c["x"], c["y"]), (c["y"], c["x"])):
-                if const_val(a_) == 0 and core.strip_casts(b_).get("k") == "ref":
+                if (const_val(a_) == 0 or const_val(core.strip_casts(a_)) == 0) and core.strip_casts(b_).get("k") == "ref":
                     nm = core.strip_casts(b_)["n"]
                     nonnull = (truth and op == "!=") or (not truth and op == "==")
                     if nonnull and nm in st.condfacts:
@@ -1041,9 +1046,10 @@ class Analysis:
                 self.lin(e["y"], st, facts)
                 l = core.strip_casts(e["x"])
                 self._lhs_access(st, pos, l, record)
+                pre = self._pre_args(st, l["n"], e["y"], pos) if l.get("k") == "ref" else None
                 self._assign(st, l, rv, e["y"], facts)
                 if l.get("k") == "ref":
-                    self._contract(st, l["n"], e["y"])
+                    self._contract(st, l["n"], e["y"], pre)
                 return rv
             if op in ("+=", "-=", "*=", "/=", "%=", "&=", "|=", "^=", "<<=", ">>="):
                 rv = self._ev(st, pos, e["y"], record)
@@ -1122,14 +1128,35 @@ class Analysis:
                     st.havoc_var(s["n"])
         return self.lin(e, st)
 
-    def _contract(self, st, var, rhs):
+    def _pre_args(self, st, var, rhs, pos):
+        """values of a helper call's arguments *before* `var = helper(...)` is executed.  When an argument mentions
+        var itself (separator = find(separator, ...)) the old value is kept in a ghost atom."""
+        r = core.strip_casts(rhs)
+        if r is None or r.get("k") != "call":
+            return None
+        vals = [self.lin(a, st) for a in r["args"]]
+        if any(v is not None and var in v.t for v in vals):
+            g = "%s@pre%s_%s" % (var, pos[0], pos[1])
+            self.info.register(g, {g}, False, self.info.nonneg(var))
+            st.forget_atoms(lambda a: a == g)
+            # the ghost inherits every linear fact of var (an equality alone would be dropped when var is overwritten)
+            info = self.info
+            for terms, c in list(st.cons.items()):
+                d = dict(terms)
+                if var in d and not any(a != var and var in info.vars(a) for a in d):
+                    d[g] = d.pop(var)
+                    st.add(Lin(d, c))
+            vals = [None if v is None else Lin({(g if a == var else a): c for a, c in v.t.items()}, v.c) for v in vals]
+        return vals
+
+    def _contract(self, st, var, rhs, pre=None):
         """return-value contracts of the search helpers (valid when the result is non-NULL)"""
         r = core.strip_casts(rhs)
         if r is None or r.get("k") != "call":
             return
         name = r.get("fn")
         args = r["args"]
-        L = lambda i: self.lin(args[i], st)
+        L = (lambda i: pre[i]) if pre is not None else (lambda i: self.lin(args[i], st))
         v = atom(var)
         cf = []
         if name in RET_LE_ARG and RET_LE_ARG[name] < len(args):
@@ -1168,7 +1195,19 @@ class Analysis:
         except (AttributeError, TypeError):
             cf = []
         if cf:
-            st.condfacts[var] = cf
+            # weaker consequences that are more often inductive: "inside the buffer" without the start offset
+            extra = []
+            try:
+                if name in ("mem_find_off", "mem_chr_off", "mem_rchr_off") :
+                    pb = L(1)
+                    extra.append(pb.add(v, -1))
+                elif name in ("mem_find_ptr", "mem_chr_ptr", "mem_rchr_ptr"):
+                    pb = L(1)
+                    if st.entails(pb.add(L(0), -1)):         # the start pointer is already inside the buffer
+                        extra.append(pb.add(v, -1))
+            except (AttributeError, TypeError):
+                extra = []
+            st.condfacts[var] = cf + [x for x in extra if x is not None]
 
     # ------------------------------------------------------------ obligations
     def _access(self, st, pos, node, addr, width, rw, record, length=None, what=None):
